@@ -2,6 +2,7 @@ import DadiVerif.Lemmas.Integrate
 import DadiVerif.Lemmas.Precalc
 import DadiVerif.Lemmas.Pivots
 import DadiVerif.Lemmas.Positivity
+import DadiVerif.Lemmas.GridReal
 /-!
 # C02 — every integration path solves the documented implicit scheme
 
@@ -271,5 +272,22 @@ example : GridsOk [#[0, 1/2, 1], #[0, 1/2, 1]] ∧ InjectGridsOk [#[0, 1/2, 1], 
     intro p hp
     simp only [List.mem_cons, List.not_mem_nil, or_false] at hp
     rcases hp with rfl | rfl <;> simp
+
+/-! ### The library's own grid meets the hypotheses of the theorems above -/
+
+/-- **`Numerics.default_grid` (= `exponential_grid`, translated statement by statement into `Gen.GridReal`) is strictly increasing from
+    exactly 0 to exactly 1** for every pts ≥ 2 and every crwd > 0 (in particular the default crwd): the hypotheses "increasing grid",
+    x₀ = 0, x_last = 1 of the scheme, mass, marginal and positivity theorems are satisfied by the grid every library model uses.
+    (Over ℝ with `Real.exp`; the float grid is compared in L3.) -/
+theorem C02_default_grid_ok (pts : ℕ) (hp : 2 ≤ pts) (crwd : ℝ) (hc : 0 < crwd) :
+    Gen.GridReal.grid pts crwd 0 = 0 ∧ Gen.GridReal.grid pts crwd (pts - 1) = 1
+    ∧ (∀ i j, i < j → Gen.GridReal.grid pts crwd i < Gen.GridReal.grid pts crwd j)
+    ∧ (∀ j, j < pts → 0 ≤ Gen.GridReal.grid pts crwd j ∧ Gen.GridReal.grid pts crwd j ≤ 1) :=
+  gridReal_ok pts hp crwd hc
+
+/-- the default grid is that function, with a positive default crowding parameter -/
+theorem C02_default_grid_wiring : Gen.GridReal.defaultIsExponential = true ∧ (0:ℝ) < Gen.GridReal.crwdDefault := by
+  refine ⟨rfl, ?_⟩
+  unfold Gen.GridReal.crwdDefault; norm_num
 
 end DadiVerif
